@@ -50,7 +50,7 @@ theorem Why.frame {p : Program} {s s' : St} {k : Key} (h : Why p s k) (f : Frame
     rw [hk, f.cur]; exact h.2
   · exact Or.inr ⟨hnv, n, fk, o, by rw [hk]; exact hn, hkp, hm, hasPending_touches t hp⟩
 
-theorem execute_spec {p : Program} (wf : WF p) (pf : NoProjOverProj p) {q : Q} {k : Key}
+theorem execute_spec {p : Program} (wf : WF p) (sh : Shape p) {q : Q} {k : Key}
     (hq : QSpec p q k) {d : NodeDef} (hp : p[k]? = some d) (hki : d.kind ≠ .input)
     (hke : d.kind ≠ .external) {s : St} (inv : Inv p s) (hwhy : Why p s k) (hbad : Bad s k) :
     Sat (execute q k d s) (QPost p k s) := by
@@ -64,16 +64,30 @@ theorem execute_spec {p : Program} (wf : WF p) (pf : NoProjOverProj p) {q : Q} {
     obtain ⟨i1, f1, t1, a1, _, tr⟩ := hrun
     simp only at i1 f1 t1 a1 tr ⊢
     have hbad1 : Bad s1 k := hbad.frame inv f1 t1
-    have hpj : d.kind = .projection → ∀ d' o nd, (d', o) ∈ a.deps → s1.nodes d' = some nd →
-        nd.kind = .firewall := by
-      intro hkp d' o nd hm hnd
+    have hpj : NoProjOverProj p → d.kind = .projection → ∀ d' o nd, (d', o) ∈ a.deps →
+        s1.nodes d' = some nd → nd.kind = .firewall := by
+      intro pf hkp d' o nd hm hnd
       have := runProg_reads q (fun x => kindOf p x = some .firewall) d.prog {} s (pf k d hp hkp)
         (fun e he => by cases he) _ hr (d', o) hm
       obtain ⟨dd, hpd, hkd, _⟩ := i1.kind d' nd hnd
       simp only [kindOf, hpd, Option.map_some, Option.some.injEq] at this
       rw [← hkd]; exact this
+    have hpk : d.kind = .projection → ∀ d' o nd, (d', o) ∈ a.deps → s1.nodes d' = some nd →
+        nd.kind = .firewall ∨ nd.kind = .projection := by
+      intro hkp d' o nd hm hnd
+      have := runProg_reads q (fun x => kindOf p x = some .firewall ∨ kindOf p x = some .projection)
+        d.prog {} s ((wf k d hp hki hke).2 hkp) (fun e he => by cases he) _ hr (d', o) hm
+      obtain ⟨dd, hpd, hkd, _⟩ := i1.kind d' nd hnd
+      simp only [kindOf, hpd, Option.map_some, Option.some.injEq] at this
+      rw [← hkd]; exact this
+    have hst : StaticProj p → d.kind = .projection → ∀ ks, ProgStatic d.prog ks →
+        a.deps.map (·.1) = recordKeys ks [] ∧ a.tfc = foldTfc (front s1) ks [] := by
+      intro _ _ ks hks
+      have := runProg_static hq d.prog ks {} s (wf k d hp hki hke).1 hks inv (AccOK.nil p k s)
+      rw [hr] at this
+      exact this
     obtain ⟨i3, f13, t13, n3k, e3⟩ := publish_spec hp hki hke i1 (hwhy.frame f1 t1) hbad1.not_solid
-      hbad1.not_nGood a1 tr hpj
+      hbad1.not_nGood a1 tr hpj hpk hst
     refine ⟨i3, f1.trans f13, (t1.mono (by komega)).trans t13, ?_, _, n3k, rfl, e3.symm⟩
     apply cur_exec wf hp hki hke tr
     intro d' o' hm
@@ -118,12 +132,39 @@ theorem executeExt_spec {p : Program} (wf : WF p) {k : Key} {d : NodeDef}
       · subst e; rw [n3k] at hx; cases hx
         exact ⟨d, hp, by rw [hi, nnk], fun _ => ⟨nnd, nnt⟩⟩
       · rw [n3o x e] at hx; exact inv.kind x nx hx
+    · intro pa x nx hx hkx d' o' nd' hm hnd'
+      by_cases e : x = k
+      · subst e; rw [n3k] at hx; cases hx; rw [nnk] at hkx; cases hkx
+      · rw [n3o x e] at hx
+        rw [n3o d' (notDep x nx d' o' hx hm)] at hnd'
+        exact inv.pjFw pa x nx hx hkx d' o' nd' hm hnd'
     · intro x nx hx hkx d' o' nd' hm hnd'
       by_cases e : x = k
       · subst e; rw [n3k] at hx; cases hx; rw [nnk] at hkx; cases hkx
       · rw [n3o x e] at hx
         rw [n3o d' (notDep x nx d' o' hx hm)] at hnd'
-        exact inv.pjFw x nx hx hkx d' o' nd' hm hnd'
+        exact inv.pjKinds x nx hx hkx d' o' nd' hm hnd'
+    · intro sp x nx dx ks hx hpx hkx hstx
+      by_cases e : x = k
+      · subst e; rw [n3k] at hx; cases hx; rw [nnk] at hkx; cases hkx
+      · rw [n3o x e] at hx
+        refine inv.pjStat_transfer sp ?_ hx hpx hkx hstx
+        intro d' nd hnd _
+        have : d' ≠ k := fun e' => by subst e'; rw [hn] at hnd; cases hnd
+        simp only [front, n3o d' this]
+    · intro sp x nx g o gn hx hm hg hkg
+      by_cases e : x = k
+      · subst e; rw [n3k] at hx; cases hx; rw [nnd] at hm; cases hm
+      · rw [n3o x e] at hx
+        rw [n3o g (notDep x nx g o hx hm)] at hg
+        exact inv.pjSeen sp x nx g o gn hx hm hg hkg
+    · intro sp g gn hg hkg hpg
+      by_cases e : g = k
+      · subst e; rw [n3k] at hg; cases hg; rw [nnk] at hkg; cases hkg
+      · rw [n3o g e] at hg
+        obtain ⟨c, o, hm, hc⟩ := inv.pjCause sp g gn hg hkg hpg
+        refine ⟨c, o, hm, ?_⟩
+        simpa [hasPending, n3o c (notDep g gn c o hg hm)] using hc
     · intro x nx hx hkx d' o' nd' hm hnd' hne
       by_cases e : x = k
       · subst e; rw [n3k] at hx; cases hx; rw [nnk] at hkx; cases hkx
@@ -219,7 +260,7 @@ theorem executeExt_spec {p : Program} (wf : WF p) {k : Key} {d : NodeDef}
 
 /-- main induction: with fuel above the key, a request by a query caller meets `QPost` and never
     runs out of fuel -/
-theorem queryQ_spec {p : Program} (wf : WF p) (pf : NoProjOverProj p) :
+theorem queryQ_spec {p : Program} (wf : WF p) (sh : Shape p) :
     ∀ fuel ped k, k < fuel → ∀ s, Inv p s → Sat (queryQ p fuel ped k s) (QPost p k s) := by
   intro fuel
   induction fuel with
@@ -240,11 +281,11 @@ theorem queryQ_spec {p : Program} (wf : WF p) (pf : NoProjOverProj p) :
         | input => simp [Sat]
         | external => exact executeExt_spec wf hp hi inv hn
         | normal =>
-          exact execute_spec wf pf hq hp (by rw [hi]; decide) (by rw [hi]; decide) inv (Or.inl hj) (Or.inl (Or.inl hn))
+          exact execute_spec wf sh hq hp (by rw [hi]; decide) (by rw [hi]; decide) inv (Or.inl hj) (Or.inl (Or.inl hn))
         | firewall =>
-          exact execute_spec wf pf hq hp (by rw [hi]; decide) (by rw [hi]; decide) inv (Or.inl hj) (Or.inl (Or.inl hn))
+          exact execute_spec wf sh hq hp (by rw [hi]; decide) (by rw [hi]; decide) inv (Or.inl hj) (Or.inl (Or.inl hn))
         | projection =>
-          exact execute_spec wf pf hq hp (by rw [hi]; decide) (by rw [hi]; decide) inv (Or.inl hj) (Or.inl (Or.inl hn))
+          exact execute_spec wf sh hq hp (by rw [hi]; decide) (by rw [hi]; decide) inv (Or.inl hj) (Or.inl (Or.inl hn))
     | some n =>
       simp only
       split
@@ -256,7 +297,7 @@ theorem queryQ_spec {p : Program} (wf : WF p) (pf : NoProjOverProj p) :
         obtain ⟨d, hp, hki, hleaf⟩ := inv.kind k n hn
         rw [hp]
         simp only
-        have hrep := repairDeps_spec hq (!ped && decide (n.kind ≠ .projection)) n.deps false [] s inv hn (fun _ h => h)
+        have hrep := repairDeps_spec sh hq (!ped && decide (n.kind ≠ .projection)) n.deps false [] s inv hn (fun _ h => h)
         cases hr : repairDeps (queryQ p fuel ped) k (!ped && decide (n.kind ≠ .projection)) n.seen n.deps false [] s with
         | error e => rw [hr] at hrep; simpa [Sat] using hrep
         | ok r =>
@@ -278,7 +319,7 @@ theorem queryQ_spec {p : Program} (wf : WF p) (pf : NoProjOverProj p) :
               rw [k1] at hn'; cases hn'
               exact hv1 hv'
             have hbr1 : Broken s1 k := Or.inr ⟨n, dd, oo, nd, k1, hm, hnd, hvne, hver⟩
-            refine (execute_spec wf pf hq hp hkin hkex i1 (Or.inl hj1) (Or.inl hbr1)).mono ?_
+            refine (execute_spec wf sh hq hp hkin hkex i1 (Or.inl hj1) (Or.inl hbr1)).mono ?_
             rintro ⟨v, s2⟩ ⟨i2, f2, t2, c2, hnode⟩
             exact ⟨i2, f1.trans f2, t1.trans t2, by rw [← f1.cur]; exact c2, hnode⟩
           | false =>
@@ -295,10 +336,14 @@ theorem queryQ_spec {p : Program} (wf : WF p) (pf : NoProjOverProj p) :
               cases hmv : moved with
               | false => rw [hmv] at hne; simp [cleanNode] at hne
               | true =>
-                obtain ⟨wd, wo, wnd, wm, wnode, wk, _⟩ := hw' hmv
-                exact wk (i1.pjFw k n k1 hkp wd wo wnd wm wnode)
+                obtain ⟨wd, wo, wnd, wm, wnode, wk, wne⟩ := hw' hmv
+                rcases sh with pa | sp
+                · exact wk (i1.pjFw pa k n k1 hkp wd wo wnd wm wnode)
+                · rcases i1.pjKinds k n k1 hkp wd wo wnd wm wnode with h | h
+                  · exact wk h
+                  · exact wne (i1.pjSeen sp k n wd wo wnd k1 wm wnode h).symm
             rw [if_neg hnot]
-            obtain ⟨i2, f2, t2, c2, hnode⟩ := clean_spec wf i1 k1 hv1 moved cl hall hw'
+            obtain ⟨i2, f2, t2, c2, hnode⟩ := clean_spec wf sh i1 k1 hv1 moved cl hall hw'
             exact ⟨i2, f1.trans f2, t1.trans t2, by rw [← f1.cur]; exact c2, hnode⟩
 
 end Qbice.CoreFw
